@@ -153,7 +153,7 @@ pub struct StageInfo {
     pub wall_s: f64,
 }
 
-pub struct Run {
+pub struct Session {
     pub id: String,
     pub tier: Tier,
     pub seed: u64,
@@ -167,13 +167,13 @@ pub struct Run {
     pub start: std::time::Instant,
 }
 
-impl Run {
-    pub fn new(id: &str, tier: Tier, seed: u64) -> Run {
+impl Session {
+    pub fn new(id: &str, tier: Tier, seed: u64) -> Session {
         let threads = std::env::var("GV_THREADS").ok().and_then(|s| s.parse().ok()).unwrap_or_else(|| {
             std::thread::available_parallelism().map(|n| n.get()).unwrap_or(8).min(16)
         });
         let known = load_findings().into_iter().filter(|f| f.property == id).collect();
-        Run {
+        Session {
             id: id.to_string(),
             tier,
             seed,
@@ -415,9 +415,9 @@ pub fn execute(
     seed: u64,
     spec: EvidenceSpec,
     replay: &dyn Fn(&J) -> CaseResult,
-    body: &dyn Fn(&Run),
+    body: &dyn Fn(&Session),
 ) -> i32 {
-    let run = Run::new(id, tier, seed);
+    let run = Session::new(id, tier, seed);
     let mut violations: Vec<(String, String)> = vec![]; // (replay path, msg)
     let mut known_lines = vec![];
     // 1. recorded findings
